@@ -104,6 +104,8 @@ def cached(fam, progs, tier, module, cap, pb):
             pass
     out = os.path.join(vlib.WORK, f"wrap-{fam}-{tier}")
     r = pipeline(fam, progs, out, module, cap=cap, pb=pb)
+    import checks
+    r["sample"] = {"family": fam, "program": progs[-1] if progs else None, "trace": checks.sample_trace(out)}
     with open(cfile + ".tmp", "w") as f:
         json.dump(r, f)
     os.replace(cfile + ".tmp", cfile)
@@ -123,7 +125,7 @@ C19_ASSUME = [
 ]
 
 
-def finish(pid, tier, t0, stages_summ, problems, assume, module, extra=None):
+def finish(pid, tier, t0, stages_summ, problems, assume, module, extra=None, samples=None):
     import checks
     known = vlib.load_known()
     rdir = os.path.join(vlib.WORK, "replays")
@@ -152,7 +154,8 @@ def finish(pid, tier, t0, stages_summ, problems, assume, module, extra=None):
            "traces_validated_against_impl": tot("leaves_reached"), "programs": tot("programs"),
            "executions_enumerated": tot("executions"), "trie_nodes": tot("trie_nodes"), "leaves": tot("leaves"),
            "exhaustive": tot("capped") == 0, "programs_capped": tot("capped"), "families": stages_summ,
-           "known_findings_hit": known_hit, "checker_cmd": f"tlc -config {module}.cfg {module}.tla"}
+           "known_findings_hit": known_hit, "checker_cmd": f"tlc -config {module}.cfg {module}.tla",
+           "samples": [x for x in (samples or []) if x and x.get("trace")][:3] or [{"note": "no execution recorded"}]}
     if extra:
         cov.update(extra)
     vlib.write_evidence(pid, tier, "model_checking", cov, assume, time.time() - t0, violations)
@@ -178,7 +181,7 @@ def run_c19(tier):
     for r in results:
         summ.append(r["summary"])
         problems += r["problems"]
-    return finish("C19", tier, t0, summ, problems, C19_ASSUME, "TraceTokio")
+    return finish("C19", tier, t0, summ, problems, C19_ASSUME, "TraceTokio", samples=[r.get("sample") for r in results])
 
 
 def dev_family(fam, count, cap, module="TraceTokio", show=2, only=None):
